@@ -658,6 +658,13 @@ func (g *isoGen) split(c int, data []byte) int {
 // witness traffic: the publisher publishes to the subscriber's topic or to an attacker's one
 func (g *isoGen) witness() int {
 	r := g.r
+	if r.Intn(14) == 0 {
+		// the witness gives its subscription up and takes it again: it is then no longer the oldest
+		// subscriber of "w", and an attacker's departure rearranges the entries in front of it
+		g.emit("pkt 1 unsubscribe %d %s", g.pid(), hexStr("w"))
+		g.emit("pkt 1 subscribe %d %s:%d", g.pid(), hexStr("w"), 1+r.Intn(2))
+		return 2
+	}
 	switch r.Intn(8) {
 	case 0:
 		g.emit("pkt 1 pingreq")
